@@ -44,6 +44,8 @@ mod mutate;
 mod project;
 #[path = "c08/project_worker.rs"]
 mod project_worker;
+#[path = "c08/shadow.rs"]
+mod shadow;
 use common::*;
 
 const RULE: &str = "a case is non-trivial if it is not a verbatim valid document: a mutated / random / hostile text, a document that reaches a later stage (check, printers), a rendered diagnostic, a config text or a loader call sequence (distinct by text)";
@@ -75,8 +77,58 @@ fn site_class_of(at: &str, msg: &str) -> String {
     let file = at.rsplit_once(':').map(|x| x.0).unwrap_or(at);
     let file = file.strip_prefix("/repo/").unwrap_or(file);
     let file = if let Some(i) = file.find("/registry/src/") { file[i + 14..].split_once('/').map(|x| x.1).unwrap_or(file) } else { file };
-    let cls = panic_class(msg);
+    let mut cls = panic_class(msg);
+    // "Type system error" is the message of every `expect` that relies on the checker (dozens of sites, several per
+    // file): file + message would lump them together, and one known finding would mask every other site of its file.
+    // The enclosing function (read from the source at the reported line; stable when lines move) tells them apart.
+    if cls == "other:Type-system-error" {
+        if let Some(f) = enclosing_fn(at) {
+            cls = format!("{cls}@{f}");
+        }
+    }
     format!("{}:{}", file.replace(' ', "_"), cls.replace(' ', "_"))
+}
+
+/// `Type::function` / `function` enclosing `file:line`, from the source text
+fn enclosing_fn(at: &str) -> Option<String> {
+    let (file, line) = at.rsplit_once(':')?;
+    let line: usize = line.parse().ok()?;
+    let text = std::fs::read_to_string(file).or_else(|_| std::fs::read_to_string(format!("/repo/{file}"))).ok()?;
+    let lines: Vec<&str> = text.lines().take(line).collect();
+    let ident = |s: &str| -> String { s.chars().take_while(|c| c.is_alphanumeric() || *c == '_').collect() };
+    let mut k = lines.len();
+    let mut name = None;
+    while k > 0 {
+        k -= 1;
+        let l = lines[k];
+        if let Some(i) = l.find("fn ") {
+            let before_ok = i == 0 || l[..i].ends_with(' ') || l[..i].ends_with('(');
+            let n = ident(&l[i + 3..]);
+            if before_ok && !n.is_empty() && !l.trim_start().starts_with("//") {
+                name = Some(n);
+                break;
+            }
+        }
+    }
+    let name = name?;
+    // a method: the nearest `impl … for Type` / `impl Type` above, unless a top-level block ended in between
+    while k > 0 {
+        k -= 1;
+        let l = lines[k];
+        if l.starts_with('}') {
+            break;
+        }
+        if l.starts_with("impl") {
+            let target = l.split(" for ").last().unwrap_or(l).trim_start_matches("impl").trim_start();
+            let target = if target.starts_with('<') { target.split_once('>').map(|x| x.1.trim_start()).unwrap_or(target) } else { target };
+            let t = ident(target);
+            if !t.is_empty() {
+                return Some(format!("{t}::{name}"));
+            }
+            break;
+        }
+    }
+    Some(name)
 }
 
 fn at_line() -> String {
@@ -669,12 +721,16 @@ fn stress_stream(rep: &mut Report, cases: &[Value]) {
         };
         match w.call(c) {
             StressRes::Done(r) if is_project => {
-                if let Some(p) = r["cli"].get("panic").and_then(|p| p.as_array()) {
+                let mut panics: Vec<Value> = r["cli"].get("panic").cloned().into_iter().collect();
+                panics.extend(r["cli"]["panics"].as_array().cloned().unwrap_or_default());
+                for p in &panics {
                     let (st, m, at) = (p[0].as_str().unwrap_or(""), p[1].as_str().unwrap_or(""), p[2].as_str().unwrap_or(""));
                     rep.fail("O", &format!("panic:{st}:{}", site_class_of(at, m)), &format!("{st} panics at {at} on a project of {} files ({class}): {}", c["files"].as_array().map_or(0, |a| a.len()), m.lines().next().unwrap_or("")), c.clone());
-                    rep.count("project-outcome:panic");
-                } else {
+                }
+                if panics.is_empty() {
                     rep.count(&format!("project-outcome:{}", r["cli"]["outcome"].as_str().unwrap_or("?")));
+                } else {
+                    rep.count("project-outcome:panic");
                 }
                 if let Some(tags) = r["loader"].as_array() {
                     for t in tags {
@@ -1065,6 +1121,18 @@ fn main() {
         return;
     }
 
+    if args.extra.get("list-shadow").is_some() {
+        // diagnostic mode: only the shadowed-builtin family; every failing case is listed with its class
+        let sh = shadow::shadow_cases();
+        for c in &sh {
+            let mut one = Report::new("C08", RULE);
+            stress_stream(&mut one, &[c.clone()]);
+            for f in one.failures {
+                println!("{}\t{}\t{}\t{}", f.signature, f.what.split(" on a project").next().unwrap_or(""), c["schema"].as_str().unwrap_or("").replace('\n', " / "), c["files"][0][1].as_str().unwrap_or("").replace('\n', " / "));
+            }
+        }
+        return;
+    }
     let mut rng = Rng::new(args.seed);
     let search = args.extra.get("search").is_some();
     // ---- corpus first
@@ -1139,6 +1207,10 @@ fn main() {
     }
     rep.extra.insert("project_cases".into(), json!(pc.len()));
     stress_stream(&mut rep, &pc);
+    // the user's schema re-declares a built-in name (exhaustive list; same stages, same watchdog)
+    let sh = shadow::shadow_cases();
+    rep.extra.insert("shadowed_builtin_cases".into(), json!(sh.len()));
+    stress_stream(&mut rep, &sh);
     rep.extra.insert("project_stream_ms".into(), json!(t_project.elapsed().as_millis() as u64));
     // the semantic stress stream runs LAST (a hang costs the watchdog bound)
     let sc = stress_cases(&mut rng, args.thorough() || search);
